@@ -78,11 +78,16 @@ func build() {
 	for _, f := range []string{"a.css", "b.js", "index.html", "page.html", "my file.css", "dots..css", "noext", "sub/c.css", "sub/index.html", "sub/deep/d.js", "sub/deep/e.txt", "x.css.bak", "up..js",
 		"lib.js/index.html", "lib.js/inner.css", "style.css/readme.txt", "sub/chart.js/index.html", // directories named like files
 		"accesscss", "passwdjs", "style.scss", "worker.mjs", "sub/config.cjs", "x.js.njs", "page.xhtml", "notes.md", // names that only END in the letters of an extension
-		"page.htm", "x.cs", "a.j", "b.s", "c.ss", "d.tx", "e.tml", "f.s|j", "sub/g.ht"} { // extensions that are PART of an allowed one, or of the list's text
+		"page.htm", "x.cs", "a.j", "b.s", "c.ss", "d.tx", "e.tml", "f.s|j", "sub/g.ht",
+		"docs/a.css", "docs/b.js", "docs/f1.txt", // the same names as in the second root (for a second mount nested below the first)
+		longJS} { // a file name of 250 bytes // extensions that are PART of an allowed one, or of the list's text
 		inRoot[f] = "ROOTFILE<" + f + ">" + tag
 		write(filepath.Join(root, filepath.FromSlash(f)), inRoot[f])
 	}
 }
+
+// longJS is a legal file name so long that method + prefix + name exceed 255 bytes.
+var longJS = strings.Repeat("long-name-", 24) + "file.js"
 
 type setup struct {
 	kind       string // StaticDir, StaticFS, StaticFiles, StaticFile
@@ -306,11 +311,13 @@ func prop(t *rapid.T) {
 		ev.Class("mount-inside-a-group")
 	}
 	if rapid.IntRange(0, 2).Draw(t, "secondMount") == 0 {
-		s.second = rapid.SampledFrom([]string{"/pub", "/pubfiles", "/v2" + s.prefix}).Draw(t, "secondPrefix")
-		if s.kind == "StaticFile" && strings.HasPrefix(s.second, "/v2/") {
+		s.second = rapid.SampledFrom([]string{"/pub", "/pubfiles", "/v2" + s.prefix, s.full() + "/docs"}).Draw(t, "secondPrefix")
+		if s.kind == "StaticFile" && (strings.HasPrefix(s.second, "/v2/") || strings.HasSuffix(s.second, "/docs")) {
 			s.second = "/pub"
 		}
 		s.cacheCap = rapid.IntRange(0, 2).Draw(t, "cacheCap")
+	} else if rapid.IntRange(0, 2).Draw(t, "cachingAlone") == 0 {
+		s.cacheCap = rapid.IntRange(1, 2).Draw(t, "cacheCap")
 	}
 	if rapid.IntRange(0, 3).Draw(t, "globalVarFile") == 0 {
 		// documented API: a global path var; a variable with its own regex ({file:...}) must keep its own
@@ -352,6 +359,17 @@ func prop(t *rapid.T) {
 		if s.kind == "StaticFile" && rapid.Bool().Draw(t, "exact") {
 			raw = s.full()
 		}
+		switch rapid.IntRange(0, 9).Draw(t, "longOrAgain") {
+		case 0: // the file with the very long name, or that name with something appended (no allowed extension then)
+			raw = s.full() + "/" + longJS + rapid.SampledFrom([]string{"", "", ".map", "on", ".bak", "x/../../secret.txt"}).Draw(t, "longSuffix")
+		case 1: // an earlier path once more (a cache may answer)
+			if len(earlier) > 0 {
+				raw = rapid.SampledFrom(earlier).Draw(t, "againAny")
+			}
+		}
+		if s.second == "" {
+			earlier = append(earlier, raw)
+		}
 		if s.second != "" {
 			switch rapid.IntRange(0, 3).Draw(t, "mountChoice") {
 			case 0: // a file of the second mount
@@ -374,6 +392,15 @@ func prop(t *rapid.T) {
 		} else {
 			u = &url.URL{Path: raw} // as given, no cleaning by any mux
 		}
+		// a caller of Router.Match gets a params map of its own: what it does to it reaches no request (asked before
+		// the request here - the first lookup of a path is the one a cache would remember)
+		if rapid.Bool().Draw(t, "matchFirst") {
+			if _, ps, _ := r.Match("GET", raw); ps != nil {
+				for k := range ps {
+					ps[k] = "notes.md"
+				}
+			}
+		}
 		orig := *u // StaticFiles rewrites Req.URL.Path: keep what was requested
 		rec := httptest.NewRecorder()
 		req := &http.Request{Method: "GET", URL: u, Header: http.Header{}, Proto: "HTTP/1.1", ProtoMajor: 1, ProtoMinor: 1}
@@ -384,6 +411,12 @@ func prop(t *rapid.T) {
 		}()
 		ev.Eval()
 		u = &orig
+		// a caller of Router.Match gets a params map of its own: what it does to it reaches no later request
+		if _, ps, _ := r.Match("GET", raw); ps != nil {
+			for k := range ps {
+				ps[k] = "../secret.txt"
+			}
+		}
 		ctx := fmt.Sprintf("%s request path %q (raw %q)", s, u.Path, raw)
 		if pv != nil {
 			t.Fatalf("panic %v: %s", pv, ctx)
